@@ -176,7 +176,7 @@ def c01_main(prop="C01"):
                     cases.append(dict(id=cid, cmd="HDR %s %x %x %x %x" % (cid, mi, ln, seed, n), msg=msg, mi=mi, n=n, len=ln,
                                       seed=seed, what="fill headers numInGroup=%d" % n, kind="hdr"))
             for k in range(nscripts if not only_headers else max(2, nscripts // 3)):
-                vals = R.gen_values(m, msg, rng, force=(k < 4))
+                vals = R.gen_values(m, msg, rng, force=(k < 4), big_data=([2] if k == 1 else None))
                 form = k % 4
                 total = R.message_size(m, msg, vals)
                 ln = total + rng.choice([0, 1, 7])
@@ -348,7 +348,8 @@ def dec_main(prop):
         for mi, msg in enumerate(p.schema.messages):
             rng = C.rng_for(rep.seed, prop, p.schema.name, msg.name)
             for k in range(nimg):
-                vals = R.gen_values(m, msg, rng, inflate=inflate, force=(k == 0))
+                # image 1: the first two <data> members with an 8/16-bit length type carry the largest valid length
+                vals = R.gen_values(m, msg, rng, inflate=inflate, force=(k <= 1), big_data=([2] if k == 1 else None))
                 if inflate:
                     pre = bytes(rng.getrandbits(8) for _ in range(R.message_size(m, msg, vals)))
                     (arena, end), owner = R.encode_message(m, msg, vals, prefill=pre)
